@@ -49,7 +49,7 @@ func htmlSafe(s string, allowedTags []string) (bool, string) {
 	return true, ""
 }
 
-var c03Modes = []string{"", "true", "false", "contextual"}
+var c03Modes = []string{"", "true", "false", "contextual", "deprecated-contextual"}
 
 var c03Paths = []string{"direct", "let-value", "let-content", "param-value", "param-content", "msg-placeholder", "data-all", "nested-content", "print-after-call", "print-in-loop-around-call", "msg-twin-placeholders"}
 
@@ -249,17 +249,17 @@ func init() {
 				path = c03Paths[r.Intn(len(c03Paths))]
 				ch = c03AllChains[r.Intn(len(c03AllChains))]
 			}
-			nsMode, tMode := c03Modes[r.Intn(4)], c03Modes[r.Intn(4)]
-			cNs, cT := c03Modes[r.Intn(4)], c03Modes[r.Intn(4)]
-			if i < 16*16 {
-				nsMode, tMode, cNs, cT = c03Modes[i%4], c03Modes[(i/4)%4], c03Modes[(i/16)%4], c03Modes[(i/64)%4]
+			nsMode, tMode := c03Modes[r.Intn(5)], c03Modes[r.Intn(5)]
+			cNs, cT := c03Modes[r.Intn(5)], c03Modes[r.Intn(5)]
+			if i < 25*25 {
+				nsMode, tMode, cNs, cT = c03Modes[i%5], c03Modes[(i/5)%5], c03Modes[(i/25)%5], c03Modes[(i/125)%5]
 			}
 			b := c03Program(path, nsMode, tMode, cNs, cT, ch)
 			fa, fb := b.Files[0], b.Files[1]
 			if i%3 == 1 {
 				// other files of the same two namespaces, declared with other autoescape modes and added first and last:
 				// each file's declaration governs only its own templates
-				m1, m2 := c03Modes[r.Intn(4)], c03Modes[r.Intn(4)]
+				m1, m2 := c03Modes[r.Intn(5)], c03Modes[r.Intn(5)]
 				fz := &ref.File{Name: "z0.soy", Namespace: "na", Autoescape: m1, Templates: []*ref.Template{{Name: "other1", Body: []ref.Node{&ref.Raw{Text: "o"}}}}}
 				fy := &ref.File{Name: "z1.soy", Namespace: "nb", Autoescape: m2, Templates: []*ref.Template{{Name: "other2", Body: []ref.Node{&ref.Raw{Text: "o"}}}}}
 				if r.Bool() {
